@@ -38,6 +38,16 @@ try:
     if rc != 0:
         rc, o = sh(f"patch -p1 < {patch}", cwd=W)
     if rc != 0:
+        # the tree moved on since the agent's checkout: three-way merge against the blobs the diff names
+        sh("git checkout -q -- . && git clean -fdq -- src", cwd=W)
+        rc, o = sh(f"git apply --3way {patch}", cwd=W)
+        if rc == 0 and sh("git diff --name-only --diff-filter=U", cwd=W)[1].strip():
+            rc = 1
+        if rc == 0:
+            sh("git reset -q", cwd=W)
+            ported = sh("git diff HEAD -- src", cwd=W)[1]
+            out["ported"] = "three-way merge onto the current tree"
+    if rc != 0:
         sys.exit("patch does not apply: " + o[-300:])
     rc1, o1 = sh(f"/venv/bin/python DEMO/demo{k}.py", cwd=W, env=e, timeout=900)
     out["demo"] = {"unpatched_exit": rc0, "patched_exit": rc1, "patched_output": o1.strip()[-300:]}
@@ -67,6 +77,9 @@ try:
     d = f"{V}/seeded/{prop}-{int(k) + OFFSET}"
     os.makedirs(d, exist_ok=True)
     shutil.copy(patch, f"{d}/patch.diff")
+    if out.get("ported"):
+        shutil.copy(patch, f"{d}/patch.orig.diff")
+        open(f"{d}/patch.diff", "w").write(ported)
     shutil.copy(demo, f"{d}/demo.py")
     for f in os.listdir(src):
         if f.endswith(".py") and not f.startswith("demo"):
